@@ -128,6 +128,11 @@ func genVC(P *Program, C *Contracts, S *Sorts, key string, pure map[*ssa.Functio
 		f.regs[fv] = v
 		bind[fv.Name()] = v.T
 		f.assumeNonFresh(fv.Type(), v.T)
+		// a free variable is the address of the captured variable's cell (go/ssa: an Alloc of the
+		// enclosing function or one of its free variables): never nil
+		if _, ok := fv.Type().Underlying().(*types.Pointer); ok {
+			ex.assume("(not (= " + v.T + " 0))")
+		}
 	}
 	for _, g := range ct.Ghosts {
 		n := ex.decl("ghost."+g.Name, g.Sort)
